@@ -1,4 +1,7 @@
 // REPLAY_SOURCES: opm/input/eclipse/Schedule/Action/ActionResult.cpp
+// REPLAY_SEARCH (without a counterexample: every pair of operands over truth value x {no set, {}, {E}, {F}, {E,F}} is combined
+// with AND and with OR through the public API and the membership of E and F is compared with the contracts
+// and_is_intersection / or_is_union_of_contributed_sets / false_matches_nothing)
 // Replays a refuted set-algebra obligation through the public Action::Result API.  The verifier's counterexample
 // says, for each operand, its truth value, whether it carries a well set and whether the ghost well "E" is in it.
 // "Set present" is not directly observable; it is observed through a following AND with the well set {E}:
@@ -6,6 +9,8 @@
 #include "replay.hpp"
 #include <opm/input/eclipse/Schedule/Action/ActionResult.hpp>
 #include <sstream>
+#include <string>
+#include <vector>
 using Opm::Action::Result;
 static Result make(const Replay& r, const std::string& p) {
     Result x(r.integer(p + ".result_") != 0);
@@ -13,9 +18,33 @@ static Result make(const Replay& r, const std::string& p) {
         x.wells(r.integer(p + ".matches_.pImpl_.wells_.val.in") != 0 ? std::vector<std::string>{"E", "OTHER"} : std::vector<std::string>{});
     return x;
 }
+static int nativeSearch(const Replay& r)
+{
+    const std::vector<std::vector<std::string>> sets = { {}, {"E"}, {"F"}, {"E", "F"} };     // code >> 1: 0 = no set, 1 = {}, 2 = {E}, ...
+    auto mk = [&](int code) { Result x((code & 1) != 0); const int s = code >> 1; if (s > 0) x.wells(sets[s - 1]); return x; };   // s == 0: no set
+    auto in = [&](int code, const std::string& w) { const int s = code >> 1; if (s == 0) return false; for (const auto& x : sets[s - 1]) if (x == w) return true; return false; };
+    auto show = [&](int code) { std::string t = (code & 1) ? "(true," : "(false,"; const int s = code >> 1; if (s == 0) return t + "no set)"; t += "{"; for (const auto& x : sets[s - 1]) t += x; return t + "})"; };
+    for (int a = 0; a < 10; ++a) for (int b = 0; b < 10; ++b) for (int uni = 0; uni <= 1; ++uni) {
+        // precondition of the contracts (how comparisons build Results): a FALSE operand matches no well
+        if ((!(a & 1) && (a >> 1) > 1) || (!(b & 1) && (b >> 1) > 1)) continue;
+        Result x = mk(a); const Result y = mk(b);
+        if (uni) x.makeSetUnion(y); else x.makeSetIntersection(y);
+        const bool ar = a & 1, br = b & 1, ea = ar && (a >> 1) > 0, eb = br && (b >> 1) > 0;
+        const bool res = uni ? (ar || br) : (ar && br);
+        std::string what = show(a) + (uni ? " OR " : " AND ") + show(b);
+        if (x.conditionSatisfied() != res) return r.verdict(false, what + ": wrong truth value");
+        for (const std::string w : {"E", "F"}) {
+            const bool expect = res && (uni ? ((ea && in(a, w)) || (eb && in(b, w))) : ((ea || eb) && (!ea || in(a, w)) && (!eb || in(b, w))));
+            if (x.matches().hasWell(w) != expect)
+                return r.verdict(false, what + ": well " + w + (x.matches().hasWell(w) ? " matches" : " does not match") + ", the contract requires that it " + (expect ? "matches" : "does not match"));
+        }
+    }
+    return r.verdict(true, "AND / OR of every pair of operands gives the contracted matching wells (bounded native search)");
+}
 int main(int argc, char** argv)
 {
     Replay r(argc, argv);
+    if (r.is("bounded_native_search")) return nativeSearch(r);
     const bool ar = r.integer("verif_in_self.result_"), ah = r.integer("verif_in_self.matches_.pImpl_.wells_.has"), ai = r.integer("verif_in_self.matches_.pImpl_.wells_.val.in");
     const bool br = r.integer("verif_in_rhs.result_"), bh = r.integer("verif_in_rhs.matches_.pImpl_.wells_.has"), bi = r.integer("verif_in_rhs.matches_.pImpl_.wells_.val.in");
     Result a = make(r, "verif_in_self"); const Result b = make(r, "verif_in_rhs");
